@@ -51,6 +51,11 @@ def run(ctx):
   C10.rank_flow(ctx)
   # ... and the statistics are accumulated as a sketch factor exactly for the dimensions whose root is a sketch
   C10.predicate_call_sites(ctx)
+  # the sketch starts empty (a packed preconditioner is initialised to zero, not to a truncated identity) and the escaped
+  # mass is frozen with the rest of the sketch on steps that do not refresh it
+  from . import C02, C04
+  C02.initial_values(ctx)
+  C04.tearfree_sketchy(ctx)
 
 
 def thin_svd(ctx):
